@@ -8,6 +8,7 @@ import (
 	"flag"
 	"fmt"
 	"os"
+	"os/exec"
 	"path/filepath"
 	"regexp"
 	"runtime/debug"
@@ -76,6 +77,10 @@ func main() {
 	if *tier == "thorough" {
 		cfgs = []load.Config{{}, {GOOS: "linux", GOARCH: "386"}, {GOOS: "darwin", GOARCH: "arm64"}, {GOOS: "windows", GOARCH: "amd64"}}
 	}
+	worker := os.Getenv("ERRLINT_REFAC_SHARD") != ""
+	if worker {
+		cfgs = []load.Config{{}} // the variants are analysed in the host configuration: so is their baseline
+	}
 	if only := os.Getenv("ERRLINT_ONLY_CONFIG"); only != "" {
 		// debugging aid: analyse one build configuration only (GOOS/GOARCH)
 		cfgs = nil
@@ -112,6 +117,10 @@ func main() {
 		res.Merge(c, cfg.String())
 	}
 	selfFail := false
+	if worker {
+		runRefactorings(*repo, *verif, *prop, pr, res)
+		os.Exit(0)
+	}
 	if *tier == "thorough" {
 		selfFail = runControls(*repo, *verif, *prop, pr, res)
 		if runRefactorings(*repo, *verif, *prop, pr, res) {
@@ -359,6 +368,7 @@ func runRefactorings(repo, verif, prop string, pr *rules.Prop, res *core.Result)
 	type outcome struct {
 		ID, Result string
 		Files      []string
+		N          int `json:",omitempty"`
 	}
 	anchors := map[string]bool{}
 	if data, err := os.ReadFile(filepath.Join(verif, "properties.jsonl")); err == nil {
@@ -444,24 +454,12 @@ func runRefactorings(repo, verif, prop string, pr *rules.Prop, res *core.Result)
 		jobs = append(jobs, job{id: id, files: files, overlay: len(overlays)})
 		overlays = append(overlays, overlay)
 	}
-	pf := newPrefetcher(repo, overlays, 3)
-	for _, j := range jobs {
-		id, files := j.id, j.files
-		if j.overlay < 0 {
-			outs = append(outs, outcome{ID: id, Files: files, Result: "skipped: " + j.skip})
-			continue
-		}
-		p, err := pf.get(j.overlay)
-		if err != nil {
-			pf.done()
-			outs = append(outs, outcome{ID: id, Files: files, Result: "skipped: does not type-check on the current tree (" + firstLine(err.Error()) + ")"})
-			continue
-		}
+	// evaluate one runnable job on its loaded program
+	evalJob := func(j job, p *load.Program) outcome {
 		c := core.NewCtx(p, prop, "thorough")
 		for _, r := range pr.Rules {
 			rules.RunRule(c, r)
 		}
-		n++
 		var extra []string
 		for _, f := range c.Findings {
 			if !base[f.Key()] {
@@ -469,15 +467,105 @@ func runRefactorings(repo, verif, prop string, pr *rules.Prop, res *core.Result)
 			}
 		}
 		if len(extra) == 0 {
+			return outcome{ID: j.id, Files: j.files, Result: "silent (as required)"}
+		}
+		return outcome{ID: j.id, Files: j.files, Result: "FALSE ALARM: " + firstLine(extra[0]), N: len(extra)}
+	}
+	var runnable []job
+	for _, j := range jobs {
+		if j.overlay >= 0 {
+			runnable = append(runnable, j)
+		}
+	}
+	// worker mode: this process evaluates one shard of the runnable jobs and prints the outcomes
+	if sh := os.Getenv("ERRLINT_REFAC_SHARD"); sh != "" {
+		var si, sk int
+		fmt.Sscanf(sh, "%d/%d", &si, &sk)
+		var mine []job
+		var mineOv []map[string][]byte
+		for k, j := range runnable {
+			if sk > 0 && k%sk == si {
+				mine = append(mine, j)
+				mineOv = append(mineOv, overlays[j.overlay])
+			}
+		}
+		pf := newPrefetcher(repo, mineOv, 3)
+		for k, j := range mine {
+			p, err := pf.get(k)
+			var o outcome
+			if err != nil {
+				o = outcome{ID: j.id, Files: j.files, Result: "skipped: does not type-check on the current tree (" + firstLine(err.Error()) + ")"}
+			} else {
+				o = evalJob(j, p)
+			}
+			p = nil
+			pf.done()
+			b, _ := json.Marshal(o)
+			fmt.Printf("REFAC-OUTCOME %s\n", b)
+		}
+		return false
+	}
+	// the variants are independent: with many of them, shards are evaluated by worker processes (the rules keep
+	// per-run state, so they are not run concurrently inside one process)
+	got := map[string]outcome{}
+	if len(runnable) >= 12 && os.Getenv("ERRLINT_NO_SHARD") == "" {
+		k := (len(runnable) + 9) / 10
+		if k > 6 {
+			k = 6
+		}
+		type shardRes struct{ out []byte }
+		results := make([]chan shardRes, k)
+		for i := 0; i < k; i++ {
+			results[i] = make(chan shardRes, 1)
+			go func(i int) {
+				cmd := exec.Command(os.Args[0], "-repo", repo, "-verif", verif, "-prop", prop, "-tier", "thorough")
+				cmd.Env = append(os.Environ(), fmt.Sprintf("ERRLINT_REFAC_SHARD=%d/%d", i, k))
+				out, _ := cmd.Output()
+				results[i] <- shardRes{out}
+			}(i)
+		}
+		for i := 0; i < k; i++ {
+			r := <-results[i]
+			for _, line := range strings.Split(string(r.out), "\n") {
+				if !strings.HasPrefix(line, "REFAC-OUTCOME ") {
+					continue
+				}
+				var o outcome
+				if json.Unmarshal([]byte(strings.TrimPrefix(line, "REFAC-OUTCOME ")), &o) == nil && o.ID != "" {
+					got[o.ID] = o
+				}
+			}
+		}
+	}
+	for _, j := range jobs {
+		if j.overlay < 0 {
+			outs = append(outs, outcome{ID: j.id, Files: j.files, Result: "skipped: " + j.skip})
+			continue
+		}
+		o, ok := got[j.id]
+		if !ok {
+			// not sharded, or the worker did not deliver: evaluate here
+			p, err := load.Load(repo, load.Config{}, overlays[j.overlay])
+			if err != nil {
+				outs = append(outs, outcome{ID: j.id, Files: j.files, Result: "skipped: does not type-check on the current tree (" + firstLine(err.Error()) + ")"})
+				continue
+			}
+			o = evalJob(j, p)
+			p = nil
+			debug.FreeOSMemory()
+		}
+		if strings.HasPrefix(o.Result, "skipped") {
+			outs = append(outs, o)
+			continue
+		}
+		n++
+		if strings.HasPrefix(o.Result, "silent") {
 			silent++
-			outs = append(outs, outcome{ID: id, Files: files, Result: "silent (as required)"})
 		} else {
 			fail = true
-			outs = append(outs, outcome{ID: id, Files: files, Result: "FALSE ALARM: " + firstLine(extra[0])})
-			fmt.Printf("SELFTEST-FAIL behaviour-preserving refactoring %s raised %d finding(s), first: %s\n", id, len(extra), firstLine(extra[0]))
+			fmt.Printf("SELFTEST-FAIL behaviour-preserving refactoring %s raised %d finding(s), first: %s\n", o.ID, o.N, strings.TrimPrefix(o.Result, "FALSE ALARM: "))
 		}
-		p, c = nil, nil
-		pf.done()
+		outs = append(outs, o)
 	}
 	if res.Extra == nil {
 		res.Extra = map[string]interface{}{}
